@@ -273,6 +273,22 @@ def runtime_checks():
     if not torch.allclose(got, th[1], rtol=0, atol=1e-13):
         bad.append(dict(case='negative index in the lookup table', lookup={'u_1': -2, 't_1': -1}, violated='u(t_1) is not column -2',
                         got=got.reshape(-1).tolist(), want=th[1].reshape(-1).tolist()))
+    # the lookup table is a public attribute: re-assigning it (or editing it in place) re-routes the parameters
+    c = BundleIVP(t_0=0.3, u_0=1.9, bundle_param_lookup={'u_0': 0})
+    c.enforce(net, torch.full((n, 1), 0.3), *th)
+    c.bundle_param_lookup = {'u_0': 2}
+    got = c.enforce(net, torch.full((n, 1), 0.3), *th).detach()
+    c.bundle_param_lookup['t_0'] = 1
+    got2 = c.enforce(net, th[1].clone(), *th).detach()
+    if not torch.allclose(got, th[2], rtol=0, atol=1e-14) or not torch.allclose(got2, th[2], rtol=0, atol=1e-14):
+        bad.append(dict(case='bundle_param_lookup re-assigned / edited after construction', violated='parameters are still routed by the old table',
+                        got=got.reshape(-1).tolist(), want=th[2].reshape(-1).tolist()))
+    # rows whose u_0 dwarfs u_1: the right-end value is still exactly the row's u_1
+    big = [torch.full((n, 1), 1.0e9), torch.full((n, 1), 1.25e-3), th[2]]
+    c = BundleDirichletBVP(t_0=0.0, u_0=None, t_1=1.0, u_1=None, bundle_param_lookup={'u_0': 0, 'u_1': 1})
+    got = c.enforce(net, torch.full((n, 1), 1.0), *big).detach()
+    if not torch.allclose(got, big[1], rtol=1e-13, atol=0):
+        bad.append(dict(case='|u_0| much larger than |u_1| in the same row', violated='u(t_1) is not the row\'s u_1', got=got.reshape(-1).tolist(), want=1.25e-3))
     # a float32 network on float64 samples
     net32 = FCNN(4, 1, hidden_units=(6,)).float()
     wrap = lambda x: net32(x.float())
